@@ -3,6 +3,15 @@ mod ast;
 mod tape;
 mod jsast;
 mod gen;
+mod engine;
+mod known;
+mod node;
+mod cfggen;
+mod erase;
+mod sites;
+mod analysis;
+mod props_static;
+mod checks;
 
 use serde_json::{json, Value};
 use std::io::Read;
@@ -95,6 +104,15 @@ fn main() {
     let code = match args.first().map(|s| s.as_str()) {
         Some("rw") => cmd_rw(&args[1..]),
         Some("gen") => cmd_gen(&args[1..]),
+        Some("check") => {
+            let id = args.get(1).cloned().unwrap_or_default();
+            let tier = args.get(2).cloned().unwrap_or_else(|| "quick".into());
+            if let Some(i) = args.iter().position(|a| a == "--replay") {
+                checks::replay(&id, &args[i + 1])
+            } else {
+                checks::run(&id, &tier)
+            }
+        }
         Some("ast") => { let src = std::fs::read_to_string(&args[1]).unwrap(); match ast::parse(&src) { Ok(p) => { println!("{}", serde_json::to_string_pretty(&p.tree).unwrap()); 0 } Err(e) => { println!("ERR {e}"); 1 } } }
         _ => { eprintln!("usage: verif rw|<Cnn> ..."); 2 }
     };
